@@ -209,7 +209,13 @@ func timeRangeOverlaps(start, end, eventStart time.Time, dur time.Duration) bool
 func matchPropTimeRange(start, end time.Time, field *ical.Prop) (bool, error) {
 	// See https://datatracker.ietf.org/doc/html/rfc4791#section-9.9
 
-	ptime, err := field.DateTime(start.Location())
+	// Dates and floating times are interpreted in the time range's location
+	loc := start.Location()
+	if start.IsZero() {
+		loc = end.Location()
+	}
+
+	ptime, err := field.DateTime(loc)
 	if err != nil {
 		return false, err
 	}
